@@ -92,9 +92,10 @@ class C14(Prop):
                     res.append(("banner:frame-missing", "the frame page was not served / does not embed the requested URL", rp))
                 if r["header"].get("X-Frame-Options") != ["sameorigin"] or r["header"].get("Cache-Control") != [NOCACHE]:
                     res.append(("banner:frame-not-marked", "the framed response is not marked uncacheable and same-origin-frameable", rp))
-                for name in ("Set-Cookie", "X-Other"):
+                for name in ("Set-Cookie", "X-Other") + (("Content-Encoding", "Content-Type") if framed else ()):
+                    # (an already framed request gets the original body: also the fields that say how to read it)
                     if r["header"].get(name, []) != self._vals(back["fields"], name):
-                        res.append(("banner:html-other-header-altered", "field %s changed" % name, rp))
+                        res.append(("banner:html-other-header-altered", "field %s changed%s" % (name, " on the original body served to an already framed request" if framed else ""), rp))
         for r in obs["shim"]:
             html = "html" in r["content_type"].lower()
             rp = {"driver": "TestVerifC14Shim: websockets.ShimBody on a scripted response body with scripted Read segmentation", "case": {k: v for k, v in r.items() if k != "kind"}}
